@@ -482,7 +482,8 @@ def slice_dim(f, slicedef, fuzzydim=True):
     slicedef = slicedef.split(',')
     slicedef = [slicedef[0]] + list(map(eval, slicedef[1:]))
     if len(slicedef) == 2:
-        slicedef.append(slicedef[-1] + 1)
+        # dim,i selects element i; for i == -1 the stop must be open
+        slicedef.append((slicedef[-1] + 1) or None)
     slicedef = (slicedef + [None, ])[:4]
     dimkey, dmin, dmax, dstride = slicedef
     if dimkey not in inf.dimensions:
